@@ -24,9 +24,9 @@ func init() {
 		},
 		Rules: []RuleDef{
 			{Name: "C03-ASSERT", Floor: 8, Doc: "every single-result type assertion on an operand value in an operator node is dominated by a type test that makes it succeed", Run: c03Run},
-			{Name: "C03-DIV", Floor: 3, Doc: "every / and % in an operator node has its divisor value itself tested non-zero on every path reaching it", Run: nop},
-			{Name: "C03-SHIFT", Floor: 2, Doc: "every shift by a signed, non-constant count is dominated by a rejection of negative counts", Run: nop},
-			{Name: "C03-TRUTH", Floor: 6, Doc: "every boolean context (if/elseif, while, do-while, for, ?:, !, &&, ||) decides through data.AsBool and does not compare an Int/Float/String/Array payload itself", Run: nop},
+			{Name: "C03-DIV", Floor: 2, Doc: "every / and % in an operator node has its divisor value itself tested non-zero on every path reaching it", Run: nop},
+			{Name: "C03-SHIFT", Floor: 1, Doc: "every shift by a signed, non-constant count is dominated by a rejection of negative counts", Run: nop},
+			{Name: "C03-TRUTH", Floor: 3, Doc: "every boolean context (if/elseif, while, do-while, for, ?:, !, &&, ||) decides through data.AsBool and does not compare an Int/Float/String/Array payload itself", Run: nop},
 		},
 	})
 }
